@@ -684,7 +684,86 @@ def sig_none_class(case, obs, fail):
     return fail["expected"] == {"t": "none"} and g.get("t") == "inst" and any(g == cand for cand in fail.get("candidates", []))
 
 
+def _lit_name(v):
+    """str(v) of a Literal value (what choice_dict is keyed by)"""
+    if v["t"] == "bool":
+        return "True" if v["v"] else "False"
+    return v["v"] if v["t"] in ("str", "int", "enum") else None
+
+
+def _collides_to(ty, e, g):
+    """g is what the Literal `ty` turns the str value e into: the LAST value with the same str(), which is not e itself"""
+    if ty.get("k") != "literal" or e.get("t") != "str":
+        return False
+    vals = ty["vals"]
+    if e not in vals or g not in vals or e == g:
+        return False
+    same = [v for v in vals if _lit_name(v) == e["v"]]
+    return len(same) >= 2 and same[-1] == g and vals.index(g) > vals.index(e)
+
+
+def _inst_eq_mod_collision(classes, cls, exp, got):
+    """(equal up to Literal name collisions at leaves, number of collisions)"""
+    if got.get("t") != "inst" or exp.get("t") != "inst" or got.get("cls") != cls or exp.get("cls") != cls:
+        return False, 0
+    fields = {f["name"]: f for f in class_of(classes, cls)["fields"]}
+    gd = dict((n, v) for n, v in got["v"])
+    n_coll = 0
+    for n, e in exp["v"]:
+        f, g = fields[n], gd.get(n)
+        if g == e:
+            continue
+        if g is None:
+            return False, 0
+        if is_dc(f["ty"]):
+            ok, k = _inst_eq_mod_collision(classes, dc_name(f["ty"]), e, g)
+            if not ok:
+                return False, 0
+            n_coll += k
+        elif _collides_to(f["ty"], e, g):
+            n_coll += 1
+        else:
+            return False, 0
+    return True, n_coll
+
+
+def sig_literal_collision(case, obs, fail):
+    """(a) the leaf is a Literal[...] in which a LATER value has the same str() as the saved (str) value, and the value
+    received is exactly the last value of that name; or the same collision hits a definition DEFAULT of a class that x holds
+    None for: (b) the default_factory instance comes back (finding C15-none-class-is-absent) with its colliding literal
+    replaced, (c) the Optional[class] = None member comes back as an instance because the collided default no longer
+    equals the default (`arg_value != default_value`), its own leaves being the definition defaults up to the collision"""
+    if fail.get("clause") != "equal":
+        return False
+    if fail.get("kind") == "optional-class":
+        c = case["case"]
+        g = fail["got"]
+        if fail["expected"] != {"t": "none"} or g.get("t") != "inst":
+            return False
+        for cand in fail.get("candidates", []):
+            if cand.get("t") == "inst":
+                ok, k = _inst_eq_mod_collision(c["classes"], g["cls"], cand, g)
+                if ok and k >= 1:
+                    return True
+        # (c): own leaf fields = definition defaults (None when there is none) up to >= 1 collision
+        gd = dict((n, v) for n, v in g["v"])
+        n_coll = 0
+        for f in class_of(c["classes"], g["cls"])["fields"]:
+            if is_dc(f["ty"]):
+                continue
+            e = f["default"]["v"] if f["default"]["kind"] != "missing" else {"t": "none"}
+            if gd.get(f["name"]) == e:
+                continue
+            if _collides_to(f["ty"], e, gd.get(f["name"], {})):
+                n_coll += 1
+            else:
+                return False
+        return n_coll >= 1
+    return "ty" in fail and _collides_to(fail["ty"], fail["expected"], fail["got"])
+
+
 FINDINGS = {
+    "C15-literal-name-collision": sig_literal_collision,
     "C15-D17a-container-items-stay-str": sig_container_items,
     "C15-D17b-none-is-absent": sig_none_optional,
     "C15-none-class-is-absent": sig_none_class,
